@@ -244,4 +244,9 @@ def parseInfo (fixed nl : Bool) (s : Bytes) : PR (Hdr × Info) :=
   | .err e => .err e
   | .oob t => .oob t
 
+/-- the `info` file cut at its last whole record: the 40-byte binary header, then whole lines
+    (a file shorter than the header has no whole record: it is left as it is, `parseHdr` rejects it) -/
+def infoWhole (s : Bytes) : Bytes :=
+  if s.length < 40 then s else s.take 40 ++ wholeLines (s.drop 40)
+
 end Uft.InfoFile
